@@ -1,5 +1,71 @@
-(* C08 — configuration survives encode/decode round trips (statements; proofs in Proofs/C08_*.v). *)
+(* C08 — configuration survives encode/decode round trips.
+   Only statements here; every proof is `exact <lemma of Proofs/C08_*.v>`. *)
 From Coq Require Import List ZArith.
-Require Import MTX.Lib.IntWrap MTX.Model.C08_Scalars.
+Require Import MTX.Lib.IntWrap MTX.Model.C08_Scalars MTX.Proofs.C08_Dec MTX.Proofs.C08_Codecs.
 Import ListNotations.
 Local Open Scope Z_scope.
+
+(* ---- StringSize.  The repaired MarshalJSON/UnmarshalJSON round-trip for every uint64, whatever the
+   library formatter (bytefmt.ByteSize) and parser (bytefmt.ToBytes) do. *)
+Theorem C08_size_roundtrip : forall (bytesize : Z -> list Z) (tobytes : list Z -> tb_result) n,
+  0 <= n < two64 -> parse_size tobytes (size_marshal bytesize tobytes n) = TBVal n.
+Proof. exact size_roundtrip. Qed.
+Print Assumptions C08_size_roundtrip.
+
+(* instance on the byte-exact models of the two library functions *)
+Theorem C08_size_roundtrip_model : forall n, 0 <= n < two64 -> size_unmarshal_m (size_marshal_m n) = TBVal n.
+Proof. exact size_roundtrip_model. Qed.
+Print Assumptions C08_size_roundtrip_model.
+
+(* the text written before the repair is kept whenever it decodes to the same size *)
+Theorem C08_size_marshal_keeps : forall n,
+  tb_eqb (size_unmarshal_m (byte_size n)) n = true -> size_marshal_m n = byte_size n.
+Proof. exact size_marshal_keeps. Qed.
+Print Assumptions C08_size_marshal_keeps.
+
+(* the faithful model of the code before the repair (ByteSize / ToBytes) does not round-trip *)
+Theorem C08_size_roundtrip_refuted :
+  exists n, 0 <= n < two64 /\ size_unmarshal_old (size_marshal_old n) <> TBVal n.
+Proof. exact size_roundtrip_old_refuted. Qed.
+Print Assumptions C08_size_roundtrip_refuted.
+
+Example C08_size_examples :
+  size_marshal_old 1537 = [49; 46; 53; 75] /\ size_unmarshal_old [49; 46; 53; 75] = TBVal 1536 /\
+  size_unmarshal_old (size_marshal_old 123456789) = TBVal 123417395 /\
+  size_unmarshal_old (size_marshal_old (2 ^ 53 + 1)) = TBVal (2 ^ 53) /\
+  size_marshal_m 1537 = [49; 53; 51; 55; 66] /\ size_marshal_m 1536 = [49; 46; 53; 75] /\
+  size_marshal_m (two64 - 1) = dec (two64 - 1) ++ [66].
+Proof. exact size_old_witnesses. Qed.
+
+(* ---- enum-like types: every value a decoder can return is written as a text that decodes to it *)
+Theorem C08_enum_roundtrip : forall e v,
+  In v (enum_values e) -> enum_unmarshal e (enum_marshal e v) = Some v.
+Proof. exact enum_roundtrip. Qed.
+Print Assumptions C08_enum_roundtrip.
+
+(* ... and enum_values is exactly the set of decodable values *)
+Theorem C08_enum_values_complete : forall e s v, enum_unmarshal e s = Some v -> In v (enum_values e).
+Proof. exact enum_values_complete. Qed.
+Print Assumptions C08_enum_values_complete.
+
+Theorem C08_transports_roundtrip : forall s : pset,
+  transports_unmarshal (transports_marshal s) (false, false, false) = Some s.
+Proof. exact transports_roundtrip. Qed.
+Print Assumptions C08_transports_roundtrip.
+
+Example C08_enum_examples :
+  enum_unmarshal EEncryption s_yes = Some (EStr s_strict) /\ enum_marshal ELogLevel (EInt 3) = s_warn /\
+  enum_unmarshal ERTSPTransport s_automatic = Some ENone /\ length (flat_map enum_values all_enums) = 39%nat.
+Proof. exact enum_examples. Qed.
+
+(* ---- IPv4 networks (4 address bytes with the host bits clear, prefix length 0..32) *)
+Theorem C08_ipnet_roundtrip : forall ip ones,
+  ipnet4_wf ip ones = true -> ipnet_unmarshal (ipnet4_string ip ones) = NVal ip ones.
+Proof. exact ipnet4_roundtrip. Qed.
+Print Assumptions C08_ipnet_roundtrip.
+
+Example C08_ipnet_example :
+  ipnet4_wf [10; 1; 0; 0] 16 = true /\ ipnet4_string [10; 1; 0; 0] 16 = [49;48;46;49;46;48;46;48;47;49;54] /\
+  ipnet_unmarshal [49;48;46;49;46;50;46;51;47;49;54] = NVal [10; 1; 0; 0] 16 /\
+  ipnet4_wf [10; 1; 2; 3] 16 = false.
+Proof. exact ipnet4_example. Qed.
